@@ -10,6 +10,15 @@ use super::{
 };
 use bytes::BytesMut;
 
+// Sound stub: every harness writes into a BytesMut created with enough capacity, so BytesMut::reserve_inner (the
+// re-allocation path that dominates CBMC's cost) must be unreachable. The stub turns "unreachable" into a proof
+// obligation (assert!(false)); nothing is assumed about the bytes crate.
+#[allow(dead_code)]
+fn no_reserve_inner(_this: &mut BytesMut, _additional: usize, _allocate: bool) -> bool {
+    assert!(false);
+    true
+}
+
 // ------------------------------------------------------------------------------------------------------------
 // Wire-format specification of the variable-length integer encoding, written independently of the code:
 //   value v of an N-byte integer type, k = number of significant little-endian bytes of v (k = 1 for v = 0)
@@ -42,10 +51,11 @@ fn check_varint_format<const N: usize>(le: [u8; N], enc: &[u8]) {
 
 // obligation: C01.varint_u16_roundtrip | harness: c01_varint_u16_roundtrip | kind: complete | bound: none (all 2^16 values; loops bounded by N=2) | tier: quick
 #[kani::proof]
+#[kani::stub(bytes::BytesMut::reserve_inner, no_reserve_inner)]
 #[kani::unwind(5)]
 fn c01_varint_u16_roundtrip() {
     let x: u16 = kani::any();
-    let mut buf = BytesMut::new();
+    let mut buf = BytesMut::with_capacity(96);
     buf.put_varint_u16_le(x);
     check_varint_format::<2>(x.to_le_bytes(), &buf[..]);
     let mut s: &[u8] = &buf[..];
@@ -62,10 +72,11 @@ fn c01_varint_u16_roundtrip() {
 
 // obligation: C01.varint_u32_roundtrip | harness: c01_varint_u32_roundtrip | kind: complete | bound: none (all 2^32 values; loops bounded by N=4) | tier: quick
 #[kani::proof]
+#[kani::stub(bytes::BytesMut::reserve_inner, no_reserve_inner)]
 #[kani::unwind(7)]
 fn c01_varint_u32_roundtrip() {
     let x: u32 = kani::any();
-    let mut buf = BytesMut::new();
+    let mut buf = BytesMut::with_capacity(96);
     buf.put_varint_u32_le(x);
     check_varint_format::<4>(x.to_le_bytes(), &buf[..]);
     let mut s: &[u8] = &buf[..];
@@ -82,10 +93,11 @@ fn c01_varint_u32_roundtrip() {
 
 // obligation: C01.varint_u64_roundtrip | harness: c01_varint_u64_roundtrip | kind: complete | bound: none (all 2^64 values; loops bounded by N=8) | tier: quick
 #[kani::proof]
+#[kani::stub(bytes::BytesMut::reserve_inner, no_reserve_inner)]
 #[kani::unwind(11)]
 fn c01_varint_u64_roundtrip() {
     let x: u64 = kani::any();
-    let mut buf = BytesMut::new();
+    let mut buf = BytesMut::with_capacity(96);
     buf.put_varint_u64_le(x);
     check_varint_format::<8>(x.to_le_bytes(), &buf[..]);
     let mut s: &[u8] = &buf[..];
@@ -103,6 +115,7 @@ fn c01_varint_u64_roundtrip() {
 // Zigzag: specification  x >= 0 -> 2x ; x < 0 -> -2x - 1  (so small magnitudes stay small), and inverse.
 // obligation: C01.zigzag_i16 | harness: c01_zigzag_i16 | kind: complete | bound: none (all values, loop-free) | tier: quick
 #[kani::proof]
+#[kani::stub(bytes::BytesMut::reserve_inner, no_reserve_inner)]
 fn c01_zigzag_i16() {
     let x: i16 = kani::any();
     let e = zigzag_encode_i16(x);
@@ -115,6 +128,7 @@ fn c01_zigzag_i16() {
 
 // obligation: C01.zigzag_i32 | harness: c01_zigzag_i32 | kind: complete | bound: none (all values, loop-free) | tier: quick
 #[kani::proof]
+#[kani::stub(bytes::BytesMut::reserve_inner, no_reserve_inner)]
 fn c01_zigzag_i32() {
     let x: i32 = kani::any();
     let e = zigzag_encode_i32(x);
@@ -127,6 +141,7 @@ fn c01_zigzag_i32() {
 
 // obligation: C01.zigzag_i64 | harness: c01_zigzag_i64 | kind: complete | bound: none (all values, loop-free) | tier: quick
 #[kani::proof]
+#[kani::stub(bytes::BytesMut::reserve_inner, no_reserve_inner)]
 fn c01_zigzag_i64() {
     let x: i64 = kani::any();
     let e = zigzag_encode_i64(x);
@@ -135,4 +150,158 @@ fn c01_zigzag_i64() {
     assert!(zigzag_decode_i64(e) == x);
     let u: u64 = kani::any();
     assert!(zigzag_encode_i64(zigzag_decode_i64(u)) == u);
+}
+
+// ------------------------------------------------------------------------------------------------------------
+// C07: bounds-checked primitives. Contract (from the wire format, not from the code):
+//   try_get_varint_le::<N>(s):  s empty -> Err(UnexpectedEoi)
+//                               first <= 255-N -> Ok([first,0,..]), consumes 1
+//                               else k = first-(255-N); fewer than k bytes follow -> Err(UnexpectedEoi)
+//                                    otherwise Ok(the k bytes, zero-extended), consumes 1+k
+//   try_skip_varint_le::<N>(s): Ok exactly when try_get_varint_le is Ok, consuming the same number of bytes
+// The slice length is symbolic in 0..=N+2; the functions read at most N+1 bytes, so longer inputs add no behaviour.
+use crate::DeserializeError;
+
+fn check_get_varint<const N: usize, const CAP: usize>() {
+    let data: [u8; CAP] = kani::any();
+    let len: usize = kani::any();
+    kani::assume(len <= CAP);
+    let mut s: &[u8] = &data[..len];
+    let mut s2: &[u8] = &data[..len];
+    let r = ValueBufExt::try_get_varint_le::<N>(&mut s);
+    let r2 = ValueBufExt::try_skip_varint_le::<N>(&mut s2);
+    if len == 0 {
+        assert!(matches!(r, Err(DeserializeError::UnexpectedEoi)));
+        assert!(matches!(r2, Err(DeserializeError::UnexpectedEoi)));
+        return;
+    }
+    let first = data[0];
+    if first <= 255 - N as u8 {
+        match r {
+            Ok(b) => {
+                assert!(b[0] == first);
+                let mut i = 1;
+                while i < N {
+                    assert!(b[i] == 0);
+                    i += 1;
+                }
+            }
+            Err(_) => {
+                assert!(false);
+            }
+        }
+        assert!(s.len() == len - 1);
+        assert!(r2.is_ok());
+        assert!(s2.len() == len - 1);
+    } else {
+        let k = (first - (255 - N as u8)) as usize;
+        assert!(k >= 1 && k <= N);
+        if len - 1 < k {
+            assert!(matches!(r, Err(DeserializeError::UnexpectedEoi)));
+            assert!(matches!(r2, Err(DeserializeError::UnexpectedEoi)));
+        } else {
+            match r {
+                Ok(b) => {
+                    let mut i = 0;
+                    while i < N {
+                        if i < k {
+                            assert!(b[i] == data[1 + i]);
+                        } else {
+                            assert!(b[i] == 0);
+                        }
+                        i += 1;
+                    }
+                }
+                Err(_) => {
+                    assert!(false);
+                }
+            }
+            assert!(s.len() == len - 1 - k);
+            assert!(r2.is_ok());
+            assert!(s2.len() == len - 1 - k);
+        }
+    }
+    kani::cover!(len > 0 && data[0] > 255 - N as u8 && s.len() < len - 1);
+}
+
+// obligation: C07.get_skip_varint_2 | harness: c07_get_skip_varint_2 | kind: complete | bound: none (N=2, slice lengths 0..=4 symbolic, reads at most 3 bytes) | tier: quick
+#[kani::proof]
+#[kani::stub(bytes::BytesMut::reserve_inner, no_reserve_inner)]
+#[kani::unwind(6)]
+fn c07_get_skip_varint_2() {
+    check_get_varint::<2, 4>();
+}
+
+// obligation: C07.get_skip_varint_4 | harness: c07_get_skip_varint_4 | kind: complete | bound: none (N=4, slice lengths 0..=6 symbolic, reads at most 5 bytes) | tier: quick
+#[kani::proof]
+#[kani::stub(bytes::BytesMut::reserve_inner, no_reserve_inner)]
+#[kani::unwind(8)]
+fn c07_get_skip_varint_4() {
+    check_get_varint::<4, 6>();
+}
+
+// obligation: C07.get_skip_varint_8 | harness: c07_get_skip_varint_8 | kind: complete | bound: none (N=8, slice lengths 0..=10 symbolic, reads at most 9 bytes) | tier: quick
+#[kani::proof]
+#[kani::stub(bytes::BytesMut::reserve_inner, no_reserve_inner)]
+#[kani::unwind(12)]
+fn c07_get_skip_varint_8() {
+    check_get_varint::<8, 10>();
+}
+
+// try_skip: Err(UnexpectedEoi) exactly when fewer than `n` bytes remain, otherwise exactly n consumed
+// obligation: C07.try_skip_bounds | harness: c07_try_skip_bounds | kind: complete | bound: none (request length any usize; slice lengths 0..=8 symbolic) | tier: quick
+#[kani::proof]
+#[kani::stub(bytes::BytesMut::reserve_inner, no_reserve_inner)]
+#[kani::unwind(10)]
+fn c07_try_skip_bounds() {
+    let data: [u8; 8] = kani::any();
+    let len: usize = kani::any();
+    kani::assume(len <= 8);
+    let n: usize = kani::any();
+    let mut s: &[u8] = &data[..len];
+    let r = ValueBufExt::try_skip(&mut s, n);
+    if n <= len {
+        assert!(r.is_ok());
+        assert!(s.len() == len - n);
+    } else {
+        assert!(matches!(r, Err(DeserializeError::UnexpectedEoi)));
+        assert!(s.len() == len);
+    }
+    kani::cover!(n > len);
+    kani::cover!(n > 0 && n <= len);
+}
+
+// try_copy_to_bytes is NOT covered: Buf::copy_to_bytes for &[u8] builds a BytesMut internally; every harness touching
+// it (even with the copy unreachable under the assumption) timed out (>300 s, measured). See DESIGN.md.
+
+// discriminant helpers never read past the slice and map unknown bytes to InvalidSerialization
+// obligation: C07.discriminant_bounds | harness: c07_discriminant_bounds | kind: complete | bound: none (slice lengths 0..=2 symbolic, all byte values) | tier: quick
+#[kani::proof]
+#[kani::stub(bytes::BytesMut::reserve_inner, no_reserve_inner)]
+#[kani::unwind(4)]
+fn c07_discriminant_bounds() {
+    use crate::ValueKind;
+    let data: [u8; 2] = kani::any();
+    let len: usize = kani::any();
+    kani::assume(len <= 2);
+    let mut s: &[u8] = &data[..len];
+    let peek = ValueBufExt::try_peek_discriminant_u8::<ValueKind>(&s);
+    assert!(s.len() == len);
+    let get = ValueBufExt::try_get_discriminant_u8::<ValueKind>(&mut s);
+    if len == 0 {
+        assert!(matches!(peek, Err(DeserializeError::UnexpectedEoi)));
+        assert!(matches!(get, Err(DeserializeError::UnexpectedEoi)));
+    } else {
+        assert!(s.len() == len - 1);
+        match (peek, get) {
+            (Ok(a), Ok(b)) => {
+                assert!(a == b);
+                assert!(a as u8 == data[0]);
+            }
+            (Err(DeserializeError::InvalidSerialization), Err(DeserializeError::InvalidSerialization)) => {}
+            _ => {
+                assert!(false);
+            }
+        }
+    }
 }
